@@ -351,6 +351,10 @@ type Prop[C any] struct {
 	Meta  func(C) Meta
 	// SampleMax is the number of samples kept (default 3).
 	SampleMax int
+	// Reduce optionally proposes smaller variants of a failing case (e.g. the
+	// operation list with one element removed); used after rapid's own
+	// shrinking for a greedy delta-debugging pass that keeps the failure key.
+	Reduce func(C) []C
 }
 
 // Run drives p with rapid for n cases and records results in r.
@@ -405,6 +409,22 @@ func Run[C any](t *testing.T, r *Rec, p Prop[C], n int) {
 	r.Class(p.Kind+":cases", passed)
 	if !ok {
 		if lastFail != nil {
+			if p.Reduce != nil {
+				deadline := time.Now().Add(30 * time.Second)
+				for progress := true; progress && time.Now().Before(deadline); {
+					progress = false
+					for _, cand := range p.Reduce(*lastCase) {
+						cand := cand
+						if f := Guard("harness-panic", func() *Fail { return p.Check(cand) }); f != nil && f.Key == lastFail.Key {
+							lastCase, lastFail, progress = &cand, f, true
+							break
+						}
+						if !time.Now().Before(deadline) {
+							break
+						}
+					}
+				}
+			}
 			r.Report(p.Kind, lastFail, *lastCase)
 		} else {
 			r.Infra("%s: rapid reported a failure without a recorded case (generator problem?)", p.Kind)
@@ -412,6 +432,18 @@ func Run[C any](t *testing.T, r *Rec, p Prop[C], n int) {
 	} else if passed < int64(n) {
 		r.Infra("%s: only %d of %d cases ran (deadline?)", p.Kind, passed, n)
 	}
+}
+
+// DropOne returns every variant of xs with one element removed (helper for Reduce).
+func DropOne[E any](xs []E) [][]E {
+	var out [][]E
+	for i := range xs {
+		ys := make([]E, 0, len(xs)-1)
+		ys = append(ys, xs[:i]...)
+		ys = append(ys, xs[i+1:]...)
+		out = append(out, ys)
+	}
+	return out
 }
 
 // CheckOne runs a single deterministic case (regression constants, enumerations).
